@@ -49,10 +49,11 @@ var strDomain = []string{"", "a", "<&>\"\\", "  ", "\xff\xc3", "abcdefgh\n\x
 	"abcdefgh" + string(rune(0x2028)), "abcdefghi\xff", "abcdefghijklmnop" + string(rune(0x2029)) + ">"}
 var strDomainRT = []string{"", "a", "<&>\"\\", "  ", "abcdefgh\n\x01\x7f", "é😀", "\b\f\r\t/"}
 
-var numDomain = []string{"1", "", "-1.5e3", "0"}
+// "1e400": a valid literal that no float64 holds (a json.Number keeps the text)
+var numDomain = []string{"1", "", "-1.5e3", "0", "1e400", "-123456789012345678901234567890.5E+300"}
 var badNumbers = []string{"1.", "+1", "--", "1e", "01", " 1", "1 ", "a", "\"", ".5", "-", "0x1", "1e+", "NaN", "1,2"}
 
-var rawDomain = []string{`{"a": 1}`, ``, `[1, 2]`, `null`, `"s"`, " {\"a\":[1 ,2]}\n "}
+var rawDomain = []string{`{"a": 1}`, ``, `[1, 2]`, `null`, `"s"`, " {\"a\":[1 ,2]}\n ", `[1e400]`}
 
 var fixedTime = time.Unix(1, 5).UTC()
 
